@@ -169,6 +169,12 @@ fn check_window(p: &mut Pair, victim: usize, right_edge_max: &mut Option<u32>, d
         d.violation(format!("panic:{loc}"), format!("victim panicked while emitting segments: {msg}"), witness(p, log, params));
         return false;
     }
+    if let Some(v) = p.window_rule_broken.take() {
+        // the window the peer last advertised is what the bookkeeping rule makes of the segments that arrived
+        let sig = if v.contains("outside SND.UNA") { "send-window:changed-by-ack-outside-una-nxt" } else { "send-window:not-what-the-peer-last-advertised" };
+        d.violation(sig, format!("send window bookkeeping: {v}"), witness(p, log, params));
+        return false;
+    }
     let iss = p.sides[victim].iss;
     let obs: Vec<CallObs> = p.obs.drain(..).collect();
     for o in obs.iter().filter(|o| o.kind == CallKind::Segments && o.side == victim) {
